@@ -295,6 +295,38 @@ Proof.
   - intros i ?. lia.
 Qed.
 
+(* explicit muggle_heap_ensure_capacity: a refusal (invalid capacity or failed allocation) changes
+   nothing; a grant keeps every entry in its slot and provides the requested capacity *)
+Theorem heap_ensure_capacity_ok : forall alloc h c, heap_ok h ->
+  let '(h', ok) := heap_ensure_capacity alloc h c in
+  (ok = false -> h' = h) /\
+  (ok = true -> heap_ok h' /\ hsize h' = hsize h /\ (c <= hcap h')%nat /\ contents h' = contents h) /\
+  (alloc = false -> (hcap h < c)%nat -> ok = false).
+Proof.
+  intros alloc h c [HL [HS [HC HO]]]. unfold heap_ensure_capacity.
+  destruct (Nat.leb_spec c (hcap h)).
+  - split. discriminate. split; [| intros; lia]. intros _. repeat split; auto.
+  - destruct (cap_is_valid c); cbn [negb].
+    2:{ split; auto. split; [discriminate | auto]. }
+    destruct alloc; cbn [negb].
+    2:{ split; auto. split; [discriminate | auto]. }
+    split. discriminate. split; [| discriminate]. intros _.
+    assert (F : forall j, (j <= hsize h)%nat ->
+              getn (firstn (S (hsize h)) (nodes h) ++ repeat null_node (c - hsize h)) j = getn (nodes h) j).
+    { intros. unfold getn. rewrite app_nth1 by (rewrite firstn_length; lia).
+      apply (nth_firstn_lt null_node). lia. }
+    split; [| split; [| split]]; cbn [nodes hsize hcap]; auto; try lia.
+    + unfold heap_ok. cbn [nodes hsize hcap]. repeat split; try lia.
+      * rewrite app_length, firstn_length, repeat_length. lia.
+      * intros i Hi. rewrite !F by dlia. apply HO. lia.
+    + unfold contents. cbn [nodes hsize].
+      destruct (nodes h) as [| n0 ns] eqn:EN. simpl in HL; lia.
+      cbn [firstn app skipn]. rewrite firstn_app, firstn_firstn, Nat.min_id.
+      rewrite firstn_length. simpl in HL.
+      replace (hsize h - Nat.min (hsize h) (length ns))%nat with 0%nat by lia.
+      cbn [firstn]. rewrite app_nil_r. reflexivity.
+Qed.
+
 Theorem heap_insert_ok : forall alloc h k v, heap_ok h ->
   exists h' b, heap_insert kf alloc h k v = Some (h', b) /\
     (b = false -> h' = h) /\
